@@ -1,3 +1,4 @@
+import errno
 import io
 import sys
 from typing import BinaryIO, Callable, Generator, Literal, Sequence
@@ -20,6 +21,21 @@ _MODE_TABLE: dict[str, Literal["rb", "wb", "ab", "r+b", "w+b", "a+b"]] = {
     "ㅈㄹㄹ": "w+b",  # open R/W after resetting file content
     "ㅈㄱㄹ": "a+b",
 }
+
+
+def _file_error(
+    metadata: AS.Metadata, err: Exception
+) -> error.UnsuspectedHangeulOSError:
+    """Converts a failure of a file operation into the language's OS error."""
+    if isinstance(err, OSError) and err.errno is not None:
+        code = err.errno
+    elif isinstance(err, OverflowError):
+        code = errno.EOVERFLOW
+    else:  # closed file, or an operation the open mode does not permit
+        code = errno.EBADF
+    return error.UnsuspectedHangeulOSError(
+        metadata, f"운영체제 오류 errno={code}", code
+    )
 
 
 class File(AS.Function):
@@ -59,7 +75,10 @@ class File(AS.Function):
 
         def _fn(do_IO: DoIO) -> AS.EvalContext:
             del do_IO  # Unused
-            self._file.close()
+            try:
+                self._file.close()
+            except (OSError, ValueError) as err:
+                raise _file_error(metadata, err) from None
             return AS.Nil()
             yield
 
@@ -76,7 +95,10 @@ class File(AS.Function):
 
         def _fn(do_IO: DoIO) -> AS.EvalContext:
             del do_IO  # Unused
-            content = self._file.read(count.value)  # -1 for all
+            try:
+                content = self._file.read(count.value)  # -1 for all
+            except (OSError, ValueError, OverflowError) as err:
+                raise _file_error(metadata, err) from None
             return AS.Bytes(content)
             yield
 
@@ -92,8 +114,11 @@ class File(AS.Function):
 
         def _fn(do_IO: DoIO) -> AS.EvalContext:
             del do_IO  # Unused
-            count = self._file.write(content.value)
-            self._file.flush()  # keeps tell() truthful in append modes
+            try:
+                count = self._file.write(content.value)
+                self._file.flush()  # keeps tell() truthful in append modes
+            except (OSError, ValueError) as err:
+                raise _file_error(metadata, err) from None
             return AS.Integer(count)
             yield
 
@@ -107,7 +132,10 @@ class File(AS.Function):
 
             def _fn(do_IO: DoIO) -> AS.EvalContext:
                 del do_IO  # Unused
-                pos = self._file.tell()
+                try:
+                    pos = self._file.tell()
+                except (OSError, ValueError) as err:
+                    raise _file_error(metadata, err) from None
                 return AS.Integer(pos)
                 yield
 
@@ -135,7 +163,10 @@ class File(AS.Function):
 
         def _fn(do_IO: DoIO) -> AS.EvalContext:
             del do_IO  # Unused
-            pos = self._file.seek(offset.value, whence)
+            try:
+                pos = self._file.seek(offset.value, whence)
+            except (OSError, ValueError, OverflowError) as err:
+                raise _file_error(metadata, err) from None
             return AS.Integer(pos)
             yield
 
@@ -150,7 +181,12 @@ class File(AS.Function):
 
         def _fn(do_IO: DoIO) -> AS.EvalContext:
             del do_IO  # Unused
-            new_size = self._file.truncate(*[arg.value for arg in _argv[:-1]])
+            try:
+                new_size = self._file.truncate(
+                    *[arg.value for arg in _argv[:-1]]
+                )
+            except (OSError, ValueError, OverflowError) as err:
+                raise _file_error(metadata, err) from None
             return AS.Integer(new_size)
             yield
 
